@@ -82,7 +82,14 @@ fn context_rules(cfg: &Cfg, rep: &mut Report, h: u64, steps: usize, grow: bool) 
     let mut ever_ids: BTreeSet<u32> = [0u32].into_iter().collect();
     let fp = |r: &R| -> (usize, BTreeSet<usize>, BTreeSet<usize>) { (r.ty, r.signers.iter().cloned().collect(), r.policies.iter().cloned().collect()) };
     rep.op("deploy multisig account (rule 0: Default, signer 0)".into());
+    // policy 5 is moody: its install / uninstall hooks may fail (bit 0 / bit 1)
+    let mut moods: u32 = 0;
     for step in 0..steps {
+        if rng.chance(1, 12) {
+            moods = rng.below(4) as u32;
+            invoke::<()>(e, &policies[5], "set_moods", args!(e, moods)).unwrap();
+            rep.op(format!("#{step} policy 5: install {} / uninstall {}", if moods & 1 != 0 { "fails" } else { "works" }, if moods & 2 != 0 { "fails" } else { "works" }));
+        }
         let cur = w.ledger();
         let ids: Vec<u32> = rules.keys().cloned().collect();
         let rid = if ids.is_empty() || rng.chance(1, 10) { next_id + rng.below(2) as u32 } else { *rng.pick(&ids) };
@@ -106,7 +113,12 @@ fn context_rules(cfg: &Cfg, rep: &mut Report, h: u64, steps: usize, grow: bool) 
             let vu: Option<u32> = *rng.pick(&[None, Some(cur), Some(cur + 5), Some(cur.saturating_sub(1))]);
             let cand = R { ty, name: format!("r{step}"), signers: chosen.clone(), policies: pchosen.clone(), vu };
             let fp_dup = !dup && rules.values().any(|x| fp(x) == fp(&cand));
-            want = rules.len() < 15 && !dup && vu.map_or(true, |v| v >= cur) && chosen.len() <= 15 && pchosen.len() <= 5 && !(chosen.is_empty() && pchosen.is_empty()) && !fp_dup;
+            // a policy whose install hook fails cannot be attached: the whole addition is refused without trace
+            let install_fails = moods & 1 != 0 && pchosen.contains(&5);
+            want = rules.len() < 15 && !dup && vu.map_or(true, |v| v >= cur) && chosen.len() <= 15 && pchosen.len() <= 5 && !(chosen.is_empty() && pchosen.is_empty()) && !fp_dup && !install_fails;
+            if install_fails {
+                rep.count("add_rule_with_failing_install");
+            }
             let mut sv: SVec<Signer> = SVec::new(e);
             for i in &chosen {
                 sv.push_back(signers[*i].clone());
@@ -125,6 +137,10 @@ fn context_rules(cfg: &Cfg, rep: &mut Report, h: u64, steps: usize, grow: bool) 
             want = rules.contains_key(&rid);
             desc = format!("remove_context_rule {rid}");
             r = invoke(e, &acct, "remove_context_rule", args!(e, rid));
+            // (a failing uninstall hook must not keep a rule or a policy from being removed)
+            if moods & 2 != 0 && rules.get(&rid).map_or(false, |x| x.policies.contains(&5)) {
+                rep.count("removal_with_failing_uninstall");
+            }
             rep.case(format!("rules/remove/present={want}/{}", tag(&r)));
             if r.is_ok() {
                 rules.remove(&rid);
@@ -167,7 +183,7 @@ fn context_rules(cfg: &Cfg, rep: &mut Report, h: u64, steps: usize, grow: bool) 
             want = ex.as_ref().map_or(false, |x| {
                 let mut y = x.clone();
                 y.policies.push(p);
-                !x.policies.contains(&p) && y.policies.len() <= 5 && !rules.iter().any(|(i, o)| *i != rid && fp(o) == fp(&y))
+                !x.policies.contains(&p) && y.policies.len() <= 5 && !rules.iter().any(|(i, o)| *i != rid && fp(o) == fp(&y)) && !(p == 5 && moods & 1 != 0)
             });
             desc = format!("add_policy rule {rid} policy {p}");
             r = invoke(e, &acct, "add_policy", args!(e, rid, policies[p].clone(), Val::VOID.to_val()));
